@@ -36,7 +36,7 @@ TEXT = {'text': 'Kernel-checked theorems over Model/Totality.v, which re-express
          'PeginData::from_pegin_witness, TxOut::pegout_data, TxOut::minimum_value relative to the library\'s >= 65-byte rule, TaprootBuilder via C15\'s '
          'invariant). The model follows the repaired library: F1 new_bech32 (a4bc64e), F2 merge xpub (4b01389), F12 blind with nothing marked (8d5600e), F16 serde builder '
          '(c723f02) and F18 commitments from short slices (838e50c) are fixed, their statements hold for every input and a return of the old behaviour fails '
-         'the check. Second round: F17 fee sums (8ea09fb, saturating), F19 read_uint size (fc1698d), and in the exploration half F24 (ba8083f), F25 (a868a45), F26 (d4a049b) are fixed too; no '
+         'the check. Second round: F17 fee sums (7b7cbe8, saturating), F19 read_uint size (6050d64), and in the exploration half F24 (22d9646), F25 (5c23a02), F26 (b1b3ac3) are fixed too; no '
          'restricted statement is left. Known findings that remain are inside secp256k1-zkp: F20, F21, F22, F23, F27. Allocation: the C01 decoders re-assembled from instrumented combinators (same decoders by reflexivity) '
          'reserve at most 2 MAX_VEC_SIZE + k_tx|input| for a Transaction and 3 MAX_VEC_SIZE + k_block|input| for a Block — bounded, not proportional: 5 bytes '
          'can reserve 4 MB. Every run executes model and implementation on the same cases in debug and release builds under a panic hook and a counting '
